@@ -20,6 +20,7 @@ package unique
 //@ ghostmap shval: any -> any local
 //
 //@ ghostmap seen: any -> bool local
+//@ ghostmap cidx: any -> int local
 //
 //@ func (*KeyedList).AppendValues
 //@   props C20
@@ -159,3 +160,30 @@ package unique
 //@   ensures setkept: forall key: any {seen(key)} :: seen(key) ==> in(l.vals, key)
 //@   ensures unsetremoved: forall key: any {l.vals[key]} :: in(l.vals, key) && old(in(l.vals, key)) ==> seen(key)
 //
+//
+// The constructors: the new object holds the callbacks it was given and a map of its own; nothing is notified.
+// NewKeyedMap copies exactly the initial entries; every entry of a new KeyedList is one of the initial values
+// (index witness cidx).
+//@ func NewKeyedMap
+//@   props C20
+//@   opt frame = skip
+//@   requires cmp != changed
+//@   loop 1 invariant own: vals != nil && vals != initial && fresh(vals)
+//@   loop 1 invariant copied: forall key: any {vals[key]} :: in(vals, key) == visited(key) && (visited(key) ==> in(initial, key) && vals[key] == initial[key])
+//@   ensures fields: result != nil && result.cmp == cmp && result.changed == changed && result.vals != nil && result.vals != initial
+//@   ensures copy: forall key: any {result.vals[key]} :: in(result.vals, key) == in(initial, key) && (in(initial, key) ==> result.vals[key] == initial[key])
+//@   ensures silent: changed != nil ==> calls(changed) == old(calls(changed))
+//
+//@ func NewKeyedList
+//@   props C20
+//@   opt frame = skip
+//@   requires getKey != nil && getKey != changed && getKey != cmp && cmp != changed
+//@   loop 1 invariant own: vals != nil && fresh(vals)
+//@   loop 1 invariant silent: changed != nil ==> calls(changed) == old(calls(changed))
+//@   loop 1 invariant idx: -1 <= rangeindex
+//@   ensures fields: result != nil && result.getKey == getKey && result.cmp == cmp && result.changed == changed && result.vals != nil
+//@   ensures silent: changed != nil ==> calls(changed) == old(calls(changed))
+//@   opt caller-owned = initial
+//@   ghost backedge 1: cidx(k) := rangeindex + 1
+//@   loop 1 invariant from: forall key: any {vals[key]} :: in(vals, key) ==> 0 <= cidx(key) && cidx(key) <= rangeindex && cidx(key) < len(initial) && vals[key] == initial[cidx(key)]
+//@   ensures from: forall key: any {result.vals[key]} :: in(result.vals, key) ==> 0 <= cidx(key) && cidx(key) < len(initial) && result.vals[key] == initial[cidx(key)]
